@@ -161,12 +161,17 @@ def run_case(arg):
                                       "paths of a group are not ordered by root: %s" % idx, w_j)]
         # -o file == stdout (text)
         outp = os.path.join(d, "out.txt")
+        stale = r.random() < 0.5
+        if stale:
+            # the file exists already and holds an older, longer report (group; clean up; group again into the same file)
+            with open(outp, "wb") as f:
+                f.write(raw_t + raw_t[raw_t.find(b"\n") + 1:] + b"0123456789abcdef, 11 B (11 B) * 2:\n    /old/a\n    /old/b\n")
         res, argv = gm.run_group(o, roots, troot, home, fmt="default", extra_args=["-o", outp])
         with open(outp, "rb") as f:
             filed = f.read()
         strip = lambda b: b"\n".join(l for l in b.split(b"\n") if not l.startswith(b"# Timestamp") and not l.startswith(b"# Command"))  # noqa: E731
         if strip(filed) != strip(raw_t):
-            return [violation("C14:%s:output-file-differs" % sig0, "-o file differs from stdout", {"file": filed.decode("utf-8", "replace")[:1500],
+            return [violation("C14:%s:output-file-differs%s" % (sig0, "-file-existed" if stale else ""), "-o file differs from stdout", {"file": filed.decode("utf-8", "replace")[:1500],
                                                                                                    "stdout": raw_t.decode("utf-8", "replace")[:1500]})]
         # path order is a function of the path set: different threads, permuted roots (no isolate), other creation order
         o2 = dict(o, threads=r.choice([["1"], ["64"], ["main:1", "default:1,1"], ["default:16,3"]]))
